@@ -605,7 +605,7 @@ def h_pos_irrelevant(cname, n):
 def conditions(tier):
     q = tier == 'quick'
     conds = []
-    T = 180 if q else 900
+    T = 180 if q else 450
 
     def add(cid, fn, bounds, drives, **params):
         conds.append(Cond(cid, fn, bounds, drives, params, timeout=T))
